@@ -4,7 +4,7 @@
 # so that a broken proof does not stop the model from running).
 set -u
 D="$1"
-V=/verif
+V=$(cd "$(dirname "$0")/.." && pwd)
 cd "$V/coq/$D" || exit 2
 mkdir -p "$V/build"
 exec 9>"$V/build/.domain-$D.lock"
